@@ -915,6 +915,10 @@ impl<Writer: Write> Muxer<Writer> {
                 std::io::ErrorKind::InvalidData,
                 "duration overflow",
             )),
+            Mp4WriterError::ParameterSetTooLarge => MuxerError::Io(std::io::Error::new(
+                std::io::ErrorKind::InvalidData,
+                "parameter set does not fit the 16-bit length field of the decoder configuration",
+            )),
             Mp4WriterError::AlreadyFinalized => MuxerError::AlreadyFinished,
         }
     }
